@@ -6,6 +6,10 @@
  *                                        CA keys created by each thread, R operations per thread
  *   c10_tls_lib stale                    the witness of the stale-value finding and its guarded variant
  *   c10_tls_lib full                     exhaustion: 1024 creates succeed, the 1025th fails, reuse
+ *   c10_tls_lib mixed W T OPS SEED       free-running mix on W workers: T threads, OPS operations each, creating and
+ *                                        deleting keys CONCURRENTLY while all of them store / load under whatever
+ *                                        indices are live (see "mixed" below); prints "V <text>" per violation of the
+ *                                        property (at most 20), then "mixed ops=.. creates=.. ..." and "done"
  *   c10_tls_lib memo W ITER SEED         W workers; three families of short programs through the exported
  *                                        functions, ITER iterations each (log lines S1 / S2 / S3):
  *       S1  a thread stores under K and returns, is joined; the next thread (it gets the recycled descriptor)
@@ -35,6 +39,7 @@
 #include <errno.h>
 #include <stdint.h>
 #include <time.h>
+#include <stdarg.h>
 #include "myth/myth.h"
 
 static uint64_t sm_next(uint64_t * s) {
@@ -220,6 +225,130 @@ static int full(void) {
   return 0;
 }
 
+/* ---------------- mixed: concurrent create / delete / set / get on the real runtime ----------------
+ * owner[k]  : 0 = nobody holds index k, t+1 = thread t got it from myth_key_create and has not deleted it.
+ *             The creator claims it with a CAS; a failing CAS means the index was handed out twice.
+ * epoch[k]  : odd = no live key at index k, even = the key of incarnation epoch[k] is live.  The owner
+ *             makes it odd BEFORE it releases the index and calls myth_key_delete, the next creator makes it
+ *             even AFTER myth_key_create returned and the claim succeeded.  A set/get bracketed by two equal,
+ *             even readings of epoch[k] therefore ran entirely while that one incarnation was live; only
+ *             those are judged: getspecific must return what THIS thread stored under THIS incarnation, else
+ *             NULL (in particular NULL under a re-created index another thread or this thread stored under
+ *             before).  Everything else (dead index, epoch moved) is executed but not judged. */
+#define MX_T 64
+static volatile int mx_owner[1024];
+static volatile unsigned mx_epoch[1024];
+static volatile int mx_nviol;
+static char mx_viol[20][200];
+struct mxt { int tid, nops; uint64_t seed; long ops, creates, deletes, sets, gets, judged, judged_null_after_recreate, judged_readback,
+             create_fail; unsigned * st_epoch; unsigned long * st_val; int mine[64]; int nmine; };
+static struct mxt MX[MX_T];
+static void mx_violation(const char * fmt, ...) {
+  va_list ap; int i = __sync_fetch_and_add(&mx_nviol, 1);
+  if (i >= 20) return;
+  va_start(ap, fmt); vsnprintf(mx_viol[i], sizeof mx_viol[i], fmt, ap); va_end(ap);
+  printf("V %s\n", mx_viol[i]); fflush(stdout);       /* at once: the run may crash right afterwards */
+}
+static void * mx_thread(void * a) {
+  struct mxt * t = a; uint64_t s = t->seed; int i; unsigned long ctr = 0;
+  for (i = 0; i < t->nops; i++) {
+    uint64_t r = sm_next(&s); int what = r % 100;
+    t->ops++;
+    if (what < 14 || (what < 22 && t->nmine < 4)) {
+      /* create */
+      myth_key_t k = -7; int rc;
+      if (t->nmine >= 48) continue;
+      rc = myth_key_create(&k, 0);
+      if (rc != 0) { t->create_fail++; continue; }
+      t->creates++;
+      if (k < 0 || k >= 1024) { mx_violation("thread %d: myth_key_create returned index %d", t->tid, k); continue; }
+      if (!__sync_bool_compare_and_swap(&mx_owner[k], 0, t->tid + 1)) {
+        mx_violation("thread %d: myth_key_create handed out index %d while thread %d still holds it (op %d)", t->tid, k, mx_owner[k] - 1, i);
+        continue;
+      }
+      if (mx_epoch[k] % 2 == 0) mx_violation("thread %d: index %d created while an incarnation is marked live", t->tid, k);
+      __sync_fetch_and_add(&mx_epoch[k], 1);           /* now even: this incarnation is live */
+      t->mine[t->nmine++] = k;
+    } else if (what < 30) {
+      /* delete one of my keys (sometimes to re-create right away: the LIFO list tends to return the index) */
+      int j, k, rc;
+      if (!t->nmine) continue;
+      j = (r >> 8) % t->nmine; k = t->mine[j]; t->mine[j] = t->mine[--t->nmine];
+      __sync_fetch_and_add(&mx_epoch[k], 1);           /* odd: dying */
+      __sync_lock_test_and_set(&mx_owner[k], 0);
+      rc = myth_key_delete(k);
+      t->deletes++;
+      if (rc != 0) mx_violation("thread %d: myth_key_delete of its own live key %d returned %d", t->tid, k, rc);
+    } else if (what < 62) {
+      /* store under a (probably) live index: mine, or any small index other threads are likely to hold */
+      int k = (t->nmine && (r >> 8) % 3) ? t->mine[(r >> 12) % t->nmine] : (int)((r >> 12) % 40);
+      unsigned e1 = mx_epoch[k], e2; unsigned long v = (what < 34) ? 0UL : (((unsigned long)(t->tid + 1) << 40) | (++ctr << 4) | 1UL);
+      int rc;
+      __sync_synchronize();
+      rc = myth_setspecific(k, (void *)v);
+      __sync_synchronize();
+      e2 = mx_epoch[k];
+      t->sets++;
+      if (rc != 0) mx_violation("thread %d: myth_setspecific under index %d returned %d", t->tid, k, rc);
+      if (e1 == e2 && e1 % 2 == 0) { t->st_epoch[k] = e1; t->st_val[k] = v; }
+      else { t->st_epoch[k] = 1; }                     /* not judged until the next store */
+    } else if (what < 94) {
+      int k = (t->nmine && (r >> 8) % 3) ? t->mine[(r >> 12) % t->nmine] : (int)((r >> 12) % 40);
+      unsigned e1 = mx_epoch[k], e2; unsigned long v;
+      __sync_synchronize();
+      v = (unsigned long)myth_getspecific(k);
+      __sync_synchronize();
+      e2 = mx_epoch[k];
+      t->gets++;
+      if (e1 == e2 && e1 % 2 == 0 && t->st_epoch[k] != 1) {
+        t->judged++;
+        if (t->st_epoch[k] == e1) {
+          t->judged_readback++;
+          if (v != t->st_val[k]) mx_violation("thread %d on worker %d: getspecific(%d) = %lu, its last store under this key was %lu (incarnation %u, op %d)",
+                                              t->tid, myth_get_worker_num(), k, v, t->st_val[k], e1, i);
+        } else {
+          if (t->st_epoch[k]) t->judged_null_after_recreate++;
+          if (v != 0) mx_violation("thread %d on worker %d: getspecific(%d) = %lu, but it never stored under this incarnation (%u; its last store there was under %u: %lu) (op %d)",
+                                   t->tid, myth_get_worker_num(), k, v, e1, t->st_epoch[k], t->st_val[k], i);
+        }
+      }
+    } else if (what < 97) {
+      if (myth_getspecific(1024 + (int)((r >> 8) % 5000)) != 0 || myth_getspecific(-1 - (int)((r >> 8) % 5000)) != 0)
+        mx_violation("thread %d: getspecific under an out-of-range index returned non-NULL", t->tid);
+      if (myth_setspecific(1024 + (int)((r >> 8) % 5000), (void *)1UL) != EINVAL)
+        mx_violation("thread %d: setspecific under an out-of-range index was not rejected", t->tid);
+    } else myth_yield();
+  }
+  /* give my keys back */
+  while (t->nmine) { int k = t->mine[--t->nmine]; __sync_fetch_and_add(&mx_epoch[k], 1); __sync_lock_test_and_set(&mx_owner[k], 0); myth_key_delete(k); }
+  return 0;
+}
+static int mixed(int W, int T, int nops, uint64_t seed) {
+  myth_globalattr_t ga[1]; myth_thread_t th[MX_T]; int i; struct mxt tot; struct timespec a, b;
+  if (T > MX_T) T = MX_T;
+  myth_globalattr_init(ga); myth_globalattr_set_n_workers(ga, W); myth_init_ex(ga);
+  for (i = 0; i < 1024; i++) { mx_owner[i] = 0; mx_epoch[i] = 1; }
+  clock_gettime(CLOCK_MONOTONIC, &a);
+  for (i = 0; i < T; i++) {
+    memset(&MX[i], 0, sizeof MX[i]); MX[i].tid = i; MX[i].nops = nops; MX[i].seed = seed * 7919ULL + i * 104729ULL;
+    MX[i].st_epoch = calloc(1024, sizeof(unsigned)); MX[i].st_val = calloc(1024, sizeof(unsigned long));
+    th[i] = myth_create(mx_thread, &MX[i]);
+  }
+  for (i = 0; i < T; i++) myth_join(th[i], 0);
+  clock_gettime(CLOCK_MONOTONIC, &b);
+  memset(&tot, 0, sizeof tot);
+  for (i = 0; i < T; i++) { tot.ops += MX[i].ops; tot.creates += MX[i].creates; tot.deletes += MX[i].deletes; tot.sets += MX[i].sets;
+    tot.gets += MX[i].gets; tot.judged += MX[i].judged; tot.judged_readback += MX[i].judged_readback;
+    tot.judged_null_after_recreate += MX[i].judged_null_after_recreate; tot.create_fail += MX[i].create_fail; }
+  for (i = 0; i < 1024; i++) if (mx_owner[i]) mx_violation("index %d still owned by thread %d after all threads gave their keys back", i, mx_owner[i] - 1);
+  printf("mixed W=%d T=%d ops=%ld creates=%ld deletes=%ld sets=%ld gets=%ld judged_gets=%ld readback=%ld null_after_recreate=%ld create_failed=%ld violations=%d ms=%ld\n",
+         W, T, tot.ops, tot.creates, tot.deletes, tot.sets, tot.gets, tot.judged, tot.judged_readback, tot.judged_null_after_recreate,
+         tot.create_fail, mx_nviol, (long)((b.tv_sec - a.tv_sec) * 1000 + (b.tv_nsec - a.tv_nsec) / 1000000));
+  myth_fini();
+  printf("done\n");
+  return 0;
+}
+
 /* ---------------- memo: reads by threads that never stored, cross-worker delete, store/migrate/store ---- */
 static myth_key_t m_key, m_key2;
 static volatile int m_flag, m_flag2;
@@ -303,6 +432,7 @@ static int memo(int W, int iters, uint64_t seed) {
 }
 
 int main(int argc, char ** argv) {
+  if (argc >= 6 && !strcmp(argv[1], "mixed")) return mixed(atoi(argv[2]), atoi(argv[3]), atoi(argv[4]), strtoull(argv[5], 0, 10));
   if (argc >= 5 && !strcmp(argv[1], "memo")) return memo(atoi(argv[2]), atoi(argv[3]), strtoull(argv[4], 0, 10));
   if (argc >= 2 && !strcmp(argv[1], "stale")) return stale();
   if (argc >= 2 && !strcmp(argv[1], "full")) return full();
